@@ -84,12 +84,15 @@ Pre(node, prev) ==
     LET cmd == node[1] p == node[2] v == Valid(prev[node[3][1]][2]) IN
     /\ \A m \in 1..Len(node[3]) : Valid(prev[node[3][m]][2]) # <<>>
     /\ (cmd \in NeedsSpread \/ (cmd = "CvtToFuzzy" /\ ~(Has(p, "TrueThreshold") /\ Has(p, "FalseThreshold"))) => NDistinct(v) >= 2)
-    /\ (cmd \in NeedsStd => ~IsMV(VStd(v)))
+    /\ (cmd \in NeedsStd => (\A j \in 1..Len(v) : Abs(v[j][1]) <= 2000 /\ v[j][2] <= 64) /\ ~IsMV(VStd(v)))       \* squares stay small
+    /\ (cmd = "Multiply" /\ Len(node[3]) = 3 => \A m \in 1..3 : \A j \in 1..Len(prev[node[3][m]][2]) :
+            Abs(prev[node[3][m]][2][j][1]) <= 1000 /\ prev[node[3][m]][2][j][2] <= 100)
     /\ (cmd \in {"NormalizeMeanToMid", "CvtToFuzzyMeanToMid"} /\ P(p, "IgnoreZeros") = "True" => NDistinct(SelectSeq(v, LAMBDA c : c # R(0))) >= 2)
 NodeVal(node, prev) == IF node[1] = "EEMSRead" THEN Ok(Cells(Column(node[3])))
                        ELSE Sem(node[1], node[2], [m \in 1..Len(node[3]) |-> <<"f", prev[node[3][m]][2]>>])
+\* values are kept small: identifiable from their floats, and far from TLC's 32-bit limit in the next command's arithmetic
 Post(r) == /\ IsOk(r) /\ Valid(r[2]) # <<>>
-           /\ \A j \in 1..Len(r[2]) : Abs(r[2][j][1]) <= 1000000 /\ r[2][j][2] <= 20000
+           /\ \A j \in 1..Len(r[2]) : Abs(r[2][j][1]) <= 30000 /\ r[2][j][2] <= 1000
 RECURSIVE Eval(_, _)
 Eval(ns, k) == IF k = 0 THEN <<>>
                ELSE LET prev == Eval(ns, k - 1) IN
